@@ -22,6 +22,7 @@ os.environ.setdefault('PROTOCOL_BUFFERS_PYTHON_IMPLEMENTATION', 'python')
 os.environ['PYTHONDONTWRITEBYTECODE'] = '1'
 sys.dont_write_bytecode = True
 warnings.filterwarnings('ignore')
+sys.setrecursionlimit(400000)     # the interpreter is recursive; vcheck raises the stack limit (ulimit -s)
 
 
 def ensure_deps():
@@ -61,3 +62,10 @@ def install():
 
 
 install()
+
+try:
+    import faulthandler
+    import signal as _signal
+    faulthandler.register(_signal.SIGUSR1, all_threads=True)
+except Exception:
+    pass
